@@ -233,6 +233,7 @@ def order_domain(ctx, repo):
     if not ok and ".replace(year=" in src:
         ctx.violation("O5", "leap-day-fallback", pe.loc(loader), "the prior-year look-up has no fallback for 29 February (date.replace raises ValueError there)")
 
+    alias_shortcuts(ctx, pe, facts.loader)
     # ---- O6 which date each recursive look-up uses
     ctx.rule("O6", "recursive look-ups use the right date: `previous` -> the day before the entry in force; `group.param` -> the same date; `vorjahr` -> the same day one year earlier; `jahresanfang` -> 1 January of the same year")
     lname = loader.name
@@ -471,6 +472,91 @@ def _selector(ctx, pe, fn, rid):
             ctx.violation(rid, f"{fn.name}|pick|{txt}", pe.loc(p), f"`{txt}` does not pick the latest of the kept dated entries")
 
 
+def alias_shortcuts(ctx, pe, loader):
+    """O7: `<param>_jahresanfang` / `<param>_vorjahr` may be filled with the value of the date itself (no second
+    look-up) only when no dated entry lies between the other date and the date: for every weak ordering of
+    D (the date), J (the other date, J <= D) and P (the latest entry on or before D), the dominating
+    conditions of such an alias imply J == D or P <= J."""
+    from staticlib.guards import Dominance, scope_functions
+    from staticlib.ordersem import weak_orderings
+
+    ctx.rule("O7", "the value for another date (start of year / previous year) is copied from the value of the date itself only under a condition implying that no dated entry lies in between")
+    dparam = loader.args.args[0].arg
+    n_alias = 0
+    for fn in scope_functions(pe, loader):
+        la = {}
+        for a in ast.walk(fn):
+            if isinstance(a, ast.Assign) and len(a.targets) == 1 and isinstance(a.targets[0], ast.Name):
+                la.setdefault(a.targets[0].id, []).append(a.value)
+        dom = Dominance(fn)
+
+        def kind_of(e, depth=0):
+            """'D' the date, 'J' a date derived from it by a helper (start of year / a year earlier), 'P' the latest kept entry"""
+            if isinstance(e, ast.Name):
+                if e.id == dparam:
+                    return "D"
+                vs = la.get(e.id, [])
+                if len(vs) == 1 and depth < 4:
+                    return kind_of(vs[0], depth + 1)
+                return None
+            if isinstance(e, ast.Call):
+                f = ast.unparse(e.func)
+                if f in ("numpy.max", "np.max", "max") and e.args:
+                    return "P"
+                if e.args and kind_of(e.args[0], depth + 1) == "D" and (isinstance(e.func, ast.Name) or isinstance(e.func, ast.Attribute)):
+                    return "J"
+            if isinstance(e, ast.Subscript) and isinstance(e.slice, ast.UnaryOp) and ast.unparse(e.slice) == "-1":
+                return "P"
+            return None
+
+        for st in ast.walk(fn):
+            if not (isinstance(st, ast.Assign) and len(st.targets) == 1 and isinstance(st.targets[0], ast.Subscript) and isinstance(st.targets[0].slice, ast.JoinedStr)):
+                continue
+            suffix = "".join(v.value for v in st.targets[0].slice.values if isinstance(v, ast.Constant))
+            if suffix not in ("_jahresanfang", "_vorjahr"):
+                continue
+            tgt_dict = ast.unparse(st.targets[0].value)
+            v = st.value
+            is_alias = isinstance(v, ast.Subscript) and ast.unparse(v.value) == tgt_dict
+            if not is_alias:
+                continue
+            n_alias += 1
+            conds = [(t, pol) for t, pol in dom.of(st) if any(kind_of(x) for x in ast.walk(t) if isinstance(x, (ast.Name, ast.Call, ast.Subscript)))]
+
+            def ev(e, env):
+                k = kind_of(e) if isinstance(e, (ast.Name, ast.Call, ast.Subscript)) else None
+                if k:
+                    return env[k]
+                if isinstance(e, ast.BoolOp):
+                    vals = [ev(x, env) for x in e.values]
+                    return all(vals) if isinstance(e.op, ast.And) else any(vals)
+                if isinstance(e, ast.UnaryOp) and isinstance(e.op, ast.Not):
+                    return not ev(e.operand, env)
+                if isinstance(e, ast.Compare) and len(e.ops) == 1:
+                    import operator as _op
+
+                    ops = {ast.Lt: _op.lt, ast.LtE: _op.le, ast.Gt: _op.gt, ast.GtE: _op.ge, ast.Eq: _op.eq, ast.NotEq: _op.ne}
+                    if type(e.ops[0]) in ops:
+                        return ops[type(e.ops[0])](ev(e.left, env), ev(e.comparators[0], env))
+                raise ValueError(ast.unparse(e)[:60])
+
+            bad = None
+            try:
+                for ranks in weak_orderings(3):
+                    env = dict(zip("DJP", ranks))
+                    if not (env["J"] <= env["D"] and env["P"] <= env["D"]):
+                        continue
+                    if all(bool(ev(t, env)) == pol for t, pol in conds) and not (env["J"] == env["D"] or env["P"] <= env["J"]):
+                        bad = env
+                        break
+            except (ValueError, KeyError, TypeError) as e:
+                raise AnalysisError(f"O7: the condition of the alias `{ast.unparse(st)[:70]}` is not a pure date predicate ({e}); needs a re-read") from e
+            ctx.ob("O7", ok=bad is None, distinct=(fn.name, suffix))
+            if bad is not None:
+                ctx.violation("O7", f"{fn.name}|{suffix}|alias", pe.loc(st), f"`{ast.unparse(st)[:80]}` copies the value of the date itself although an entry can lie between the two dates (ordering other-date={bad['J']} < latest entry={bad['P']} <= date={bad['D']} satisfies the dominating conditions {[ast.unparse(t)[:50] for t, _ in conds]}): from the day after a mid-year change until the end of the year `<param>{suffix}` shows the new value instead of the one in force at the other date")
+    ctx.ob("O7", ok=True, distinct="aliases examined", n=max(n_alias, 1))
+
+
 def _bisect_selector(ctx, pe, fn, rid, dparam):
     """the binary-search spelling: `pos = bisect_right(sorted_dates, date) - 1; entry = raw[sorted_dates[pos]]`.
     Correct iff it is bisect_right (an entry dated on the day counts), the list is sorted, and the use of
@@ -518,6 +604,33 @@ def yaml_integrity(ctx, s):
     ym = s.em.ym
     ctx.rule("Y1", "below a parameter / rounding name every key that looks like a date is a real YAML date; every parameter has a dated entry; scalar entries carry no other value keys; deviation_from targets exist; access_different_date is vorjahr|jahresanfang")
     nparams = 0
+    import yaml as _yaml
+
+    ctx.rule("Y0", "no mapping in a parameter file has the same key twice (the YAML loader silently keeps the last one: an entry added under an existing date replaces the law in force)")
+    nmaps = 0
+    for g in ym.groups():
+        fn = f"src/_gettsim/parameters/{g}.yaml"
+        try:
+            root_node = _yaml.compose((ym.pdir / f"{g}.yaml").read_text(encoding="utf-8"), Loader=getattr(_yaml, "CSafeLoader", _yaml.SafeLoader))
+        except _yaml.YAMLError as e:
+            raise AnalysisError(f"{fn} does not parse: {e}") from e
+        stack = [(root_node, g)]
+        while stack:
+            node, path = stack.pop()
+            if isinstance(node, _yaml.MappingNode):
+                nmaps += 1
+                seen_keys = {}
+                for k, v in node.value:
+                    kv = k.value if isinstance(k, _yaml.ScalarNode) else repr(k)
+                    if kv in seen_keys:
+                        ctx.ob("Y0", ok=False, distinct=(path, kv))
+                        ctx.violation("Y0", f"{path}|duplicate {kv}", f"{fn}:{k.start_mark.line + 1}", f"key `{kv}` occurs twice under {path} (lines {seen_keys[kv]} and {k.start_mark.line + 1}): the loader keeps only the last one, so the earlier entry - the law in force from that date - is silently replaced")
+                    seen_keys.setdefault(kv, k.start_mark.line + 1)
+                    stack.append((v, f"{path}.{kv}"))
+            elif isinstance(node, _yaml.SequenceNode):
+                for i, v in enumerate(node.value):
+                    stack.append((v, f"{path}[{i}]"))
+    ctx.ob("Y0", ok=True, distinct="mappings", n=max(nmaps, 1))
     for g in ym.groups():
         raw = ym.raw(g)
         fn = f"src/_gettsim/parameters/{g}.yaml"
